@@ -223,4 +223,18 @@ example : IsSem (k4U 7) k4f (k4sem 7) ∧ LocOk (k4U 7) (k4sem 7) ∧ LocOk (rea
 example : (value (k4U 7) k4f 3 emptySt 1).2 = some 107 ∧
     (value (realOf (k4U 7) (fun i => i + 10)) (realF (k4U 7) k4f) 3 emptySt 1).2 = some 107 := ⟨rfl, rfl⟩
 
+/-- a parameter declared with `name_in_config` is looked up under that key only: a value supplied under the parameter's NAME is not its
+value (the helper behaves as the real chain does) — with nothing under the key, the default (or "missing") decides -/
+theorem renamed_param_reads_key (given : List (Str × V)) (d : Decl V) (h : lookupS d.key given = none) :
+    paramValue given d = d.default := by
+  unfold paramValue; rw [h]
+
+theorem renamed_param_value (given : List (Str × V)) (d : Decl V) (v : V) (h : lookupS d.key given = some v) :
+    paramValue given d = some v := by
+  unfold paramValue; rw [h]
+
+example : paramValue [("lr".toList, 5)] ({ name := "lr".toList, default := some 1, key := "learning_rate".toList } : Decl Nat) = some 1 ∧
+    paramValue [("learning_rate".toList, 5)] ({ name := "lr".toList, default := some 1, key := "learning_rate".toList } : Decl Nat) = some 5 := by
+  decide
+
 end TCV.C19
